@@ -1083,38 +1083,45 @@ theorem sliceDocs_ws (ws l : List Nat) (h : ∀ b ∈ ws, isWs b = true) :
     sliceDocs (ws ++ l) = sliceDocs l := by
   rw [sliceDocs_eq, sliceDocs_eq l, skipWs_append ws l h]
 
-/-- One written document followed by a newline, then anything: both loops take
-the document (or stop at the depth limit) and go on with the rest. -/
-theorem readerLoop_write (F : ExtFloat) (v : JVal) (l : List Nat) (hwf : wellFormed v = true) :
-    readerLoop (write F v ++ 0x0A :: l) =
+theorem endOk_numEnd {l : List Nat} (h : endOk l = true) : numEnd l = true := by
+  cases l with
+  | nil => rfl
+  | cons b t =>
+    simp [endOk, isWs] at h
+    simp [numEnd, isDigit]
+    omega
+
+/-- One written document, then input that `peek_end_of_value` accepts: both
+loops take the document (or stop at the depth limit) and go on with the rest. -/
+theorem readerLoop_write (F : ExtFloat) (v : JVal) (l : List Nat) (hwf : wellFormed v = true)
+    (hl : endOk l = true) :
+    readerLoop (write F v ++ l) =
       if depthOf v < depthLimit then (v :: (readerLoop l).1, (readerLoop l).2)
       else ([], .err .recursionLimit) := by
   obtain ⟨b, t, hb, hws, _⟩ := write_head F v hwf
-  have hp := (parse_write_all F).1 v hwf depthLimit (0x0A :: l) (by decide) (fun _ => by simp [numEnd, isDigit])
+  have hp := (parse_write_all F).1 v hwf depthLimit l (by decide) (fun _ => endOk_numEnd hl)
   rw [readerLoop_eq]
   rw [hb] at hp ⊢
   simp only [List.cons_append] at hp ⊢
   rw [skipWs_cons _ hws]
-  have hnl : readerLoop (0x0A :: l) = readerLoop l := readerLoop_ws [0x0A] l (by simp [isWs])
   by_cases hdp : depthOf v < depthLimit
-  · simp only [hp, expectV, hdp, if_true, hnl]
+  · simp only [hp, expectV, hdp, if_true]
   · simp only [hp, expectV, hdp, if_false]
 
-theorem sliceDocs_write (F : ExtFloat) (v : JVal) (l : List Nat) (hwf : wellFormed v = true) :
-    sliceDocs (write F v ++ 0x0A :: l) =
+theorem sliceDocs_write (F : ExtFloat) (v : JVal) (l : List Nat) (hwf : wellFormed v = true)
+    (hl : endOk l = true) :
+    sliceDocs (write F v ++ l) =
       if depthOf v < depthLimit then (v :: (sliceDocs l).1, (sliceDocs l).2)
       else ([], .err .recursionLimit) := by
   obtain ⟨b, t, hb, hws, _⟩ := write_head F v hwf
-  have hp := (parse_write_all F).1 v hwf depthLimit (0x0A :: l) (by decide) (fun _ => by simp [numEnd, isDigit])
+  have hp := (parse_write_all F).1 v hwf depthLimit l (by decide) (fun _ => endOk_numEnd hl)
   rw [sliceDocs_eq]
   rw [hb] at hp ⊢
   simp only [List.cons_append] at hp ⊢
   rw [skipWs_cons _ hws]
-  have hnl : sliceDocs (0x0A :: l) = sliceDocs l := sliceDocs_ws [0x0A] l (by simp [isWs])
   by_cases hdp : depthOf v < depthLimit
-  · simp [hp, expectV, hdp, hnl, endOk, isWs]
+  · simp [hp, expectV, hdp, hl]
   · simp only [hp, expectV, hdp, if_false]
-
 
 /-- Every document is float-free, well-formed and within the depth limit. -/
 def docsOk (docs : List JVal) : Prop := ∀ d ∈ docs, wellFormed d = true ∧ depthOf d < depthLimit
@@ -1125,7 +1132,10 @@ theorem readerLoop_writeDocs (F : ExtFloat) (docs : List JVal) (h : docsOk docs)
   | nil => rw [readerLoop_eq]; simp [writeDocs, skipWs]
   | cons d ds ih =>
     have hd := h d (by simp)
-    rw [writeDocs, readerLoop_write F d _ hd.1, if_pos hd.2, ih (fun x hx => h x (by simp [hx]))]
+    have hnl : readerLoop (0x0A :: writeDocs F ds) = readerLoop (writeDocs F ds) :=
+      readerLoop_ws [0x0A] _ (by simp [isWs])
+    rw [writeDocs, readerLoop_write F d _ hd.1 (by simp [endOk, isWs]), if_pos hd.2, hnl,
+      ih (fun x hx => h x (by simp [hx]))]
 
 theorem sliceDocs_writeDocs (F : ExtFloat) (docs : List JVal) (h : docsOk docs) :
     sliceDocs (writeDocs F docs) = (docs, .ok) := by
@@ -1133,7 +1143,10 @@ theorem sliceDocs_writeDocs (F : ExtFloat) (docs : List JVal) (h : docsOk docs) 
   | nil => rw [sliceDocs_eq]; simp [writeDocs, skipWs]
   | cons d ds ih =>
     have hd := h d (by simp)
-    rw [writeDocs, sliceDocs_write F d _ hd.1, if_pos hd.2, ih (fun x hx => h x (by simp [hx]))]
+    have hnl : sliceDocs (0x0A :: writeDocs F ds) = sliceDocs (writeDocs F ds) :=
+      sliceDocs_ws [0x0A] _ (by simp [isWs])
+    rw [writeDocs, sliceDocs_write F d _ hd.1 (by simp [endOk, isWs]), if_pos hd.2, hnl,
+      ih (fun x hx => h x (by simp [hx]))]
 
 theorem writeDocs_valid (F : ExtFloat) (docs : List JVal) (h : ∀ d ∈ docs, wellFormed d = true) :
     u8run .acc (writeDocs F docs) = .acc := by
@@ -1737,6 +1750,142 @@ theorem readerLoop_ok_valid : ∀ (n : Nat) (bs : List Nat), bs.length ≤ n →
         have hc := (parse_consumes _ _ (Nat.le_refl _)).1 _ _ _ hp
         have hv := ih rest (by simp at hl hskl; omega) h
         exact (hsk.trans hc).valid hv
+
+
+/-! ## Spellings -/
+
+/-- A hex digit in either letter case. -/
+def hexD (upper : Bool) (n : Nat) : Nat :=
+  if n < 10 then 0x30 + n else if upper then 0x37 + n else 0x57 + n
+
+theorem hexVal_hexD (u : Bool) (n : Nat) (h : n < 16) : hexVal (hexD u n) = some n := by
+  unfold hexD hexVal
+  split
+  · rw [if_pos (by omega)]; congr 1; omega
+  · cases u
+    · simp only [Bool.false_eq_true, if_false]
+      rw [if_neg (by omega), if_neg (by omega), if_pos (by omega)]; congr 1; omega
+    · simp only [if_true]
+      rw [if_neg (by omega), if_pos (by omega)]; congr 1; omega
+
+/-- `\uXXXX` for a 16-bit unit, each digit in a letter case of its own. -/
+def uEsc (u3 u2 u1 u0 : Bool) (n : Nat) : List Nat :=
+  [0x5C, 0x75, hexD u3 (n / 4096 % 16), hexD u2 (n / 256 % 16), hexD u1 (n / 16 % 16), hexD u0 (n % 16)]
+
+theorem hexEscape_uEsc (u3 u2 u1 u0 : Bool) (n : Nat) (h : n < 65536) (tail : List Nat) :
+    hexEscape (hexD u3 (n / 4096 % 16) :: hexD u2 (n / 256 % 16) :: hexD u1 (n / 16 % 16) ::
+      hexD u0 (n % 16) :: tail) = .ok (n, tail) := by
+  simp only [hexEscape, hex4, hexVal_hexD _ _ (show n / 4096 % 16 < 16 by omega),
+    hexVal_hexD _ _ (show n / 256 % 16 < 16 by omega), hexVal_hexD _ _ (show n / 16 % 16 < 16 by omega),
+    hexVal_hexD _ _ (show n % 16 < 16 by omega)]
+  have : ((n / 4096 % 16 * 16 + n / 256 % 16) * 16 + n / 16 % 16) * 16 + n % 16 = n := by omega
+  rw [this]
+
+/-- `\uXXXX` of a BMP scalar, in any letter case, denotes that scalar. -/
+theorem strBody_uEsc_bmp (u3 u2 u1 u0 : Bool) (c : Nat) (hc : isScalar c = true) (h : c < 0x10000)
+    (tail : List Nat) :
+    strBody (uEsc u3 u2 u1 u0 c ++ tail) = pre (utf8 c) (strBody tail) := by
+  simp only [isScalar, Bool.or_eq_true, Bool.and_eq_true, decide_eq_true_eq] at hc
+  have key : escape (0x75 :: hexD u3 (c / 4096 % 16) :: hexD u2 (c / 256 % 16) :: hexD u1 (c / 16 % 16) ::
+      hexD u0 (c % 16) :: tail) = .ok (utf8 c, tail) := by
+    simp only [escape, unicodeEscape, hexEscape_uEsc u3 u2 u1 u0 c h tail]
+    simp
+    rw [if_neg (by omega), if_pos (by omega)]
+  simp only [uEsc, List.cons_append, List.nil_append]
+  exact strBody_esc _ _ _ key
+
+theorem unicodeEscape_pair (u3 u2 u1 u0 w3 w2 w1 w0 : Bool) (n1 n2 : Nat)
+    (h1 : 0xD800 ≤ n1 ∧ n1 ≤ 0xDBFF) (h2 : 0xDC00 ≤ n2 ∧ n2 ≤ 0xDFFF) (tail : List Nat) :
+    unicodeEscape (hexD u3 (n1 / 4096 % 16) :: hexD u2 (n1 / 256 % 16) :: hexD u1 (n1 / 16 % 16) ::
+      hexD u0 (n1 % 16) :: 0x5C :: 0x75 :: hexD w3 (n2 / 4096 % 16) :: hexD w2 (n2 / 256 % 16) ::
+      hexD w1 (n2 / 16 % 16) :: hexD w0 (n2 % 16) :: tail) =
+      .ok (utf8 (0x10000 + ((n1 - 0xD800) * 1024 + (n2 - 0xDC00))), tail) := by
+  unfold unicodeEscape
+  rw [hexEscape_uEsc u3 u2 u1 u0 n1 (by omega)]
+  simp only [ne_eq, not_true_eq_false, if_false, hexEscape_uEsc w3 w2 w1 w0 n2 (by omega)]
+  rw [if_neg (by omega), if_neg (by omega), if_neg (by omega)]
+
+/-- A surrogate pair `\uD8xx\uDCxx`, in any letter case, denotes the astral
+scalar it encodes. -/
+theorem strBody_uEsc_pair (u3 u2 u1 u0 w3 w2 w1 w0 : Bool) (n1 n2 : Nat)
+    (h1 : 0xD800 ≤ n1 ∧ n1 ≤ 0xDBFF) (h2 : 0xDC00 ≤ n2 ∧ n2 ≤ 0xDFFF) (tail : List Nat) :
+    strBody (uEsc u3 u2 u1 u0 n1 ++ (uEsc w3 w2 w1 w0 n2 ++ tail)) =
+      pre (utf8 (0x10000 + ((n1 - 0xD800) * 1024 + (n2 - 0xDC00)))) (strBody tail) := by
+  have key := unicodeEscape_pair u3 u2 u1 u0 w3 w2 w1 w0 n1 n2 h1 h2 tail
+  simp only [uEsc, List.cons_append, List.nil_append]
+  apply strBody_esc
+  rw [← key]; simp [escape]
+
+/-- The UTF-16 units of an astral scalar recombine to it. -/
+theorem surrogates_recombine (c : Nat) (h1 : 0x10000 ≤ c) (h2 : c < 0x110000) :
+    0x10000 + ((0xD800 + (c - 0x10000) / 1024 - 0xD800) * 1024 + (0xDC00 + (c - 0x10000) % 1024 - 0xDC00)) = c ∧
+    (0xD800 ≤ 0xD800 + (c - 0x10000) / 1024 ∧ 0xD800 + (c - 0x10000) / 1024 ≤ 0xDBFF) ∧
+    (0xDC00 ≤ 0xDC00 + (c - 0x10000) % 1024 ∧ 0xDC00 + (c - 0x10000) % 1024 ≤ 0xDFFF) := by
+  omega
+
+/-- A character that needs no escape, written raw, denotes itself. -/
+theorem strBody_rawCp (c : Nat) (h1 : 0x20 ≤ c) (h2 : c ≠ 0x22) (h3 : c ≠ 0x5C) (tail : List Nat) :
+    strBody (utf8 c ++ tail) = pre (utf8 c) (strBody tail) := by
+  apply strBody_raw
+  intro b hb
+  by_cases hlt : c < 0x80
+  · simp [utf8, hlt] at hb; subst hb; omega
+  · have := utf8_ge c (by omega) b hb; omega
+
+/-- `\/` denotes `/`. -/
+theorem strBody_solidus (tail : List Nat) :
+    strBody (0x5C :: 0x2F :: tail) = pre [0x2F] (strBody tail) :=
+  strBody_esc _ _ _ (by simp [escape])
+
+theorem write_floatfree_indep (F G : ExtFloat) :
+    (∀ v, hasFloat v = false → write F v = write G v) ∧
+    (∀ first es, hasFloatEntries es = false → writeEntries F first es = writeEntries G first es) ∧
+    (∀ first xs, hasFloatList xs = false → writeElems F first xs = writeElems G first xs) := by
+  apply write.mutual_induct
+    (motive_1 := fun v => hasFloat v = false → write F v = write G v)
+    (motive_2 := fun first es => hasFloatEntries es = false → writeEntries F first es = writeEntries G first es)
+    (motive_3 := fun first xs => hasFloatList xs = false → writeElems F first xs = writeElems G first xs)
+  · intro _; rfl
+  · intro _; rfl
+  · intro _; rfl
+  · intro i _; rfl
+  · intro src h; simp [hasFloat] at h
+  · intro cps _; rfl
+  · intro xs ih h; simp only [hasFloat] at h; simp [write, ih h]
+  · intro es ih h; simp only [hasFloat] at h; simp [write, ih h]
+  · intro first _; rfl
+  · intro first x xs ih1 ih2 h
+    simp only [hasFloatList, Bool.or_eq_false_iff] at h
+    simp [writeElems, ih1 h.1, ih2 h.2]
+  · intro first _; rfl
+  · intro first k v es ih1 ih2 h
+    simp only [hasFloatEntries, Bool.or_eq_false_iff] at h
+    simp [writeEntries, ih1 h.1, ih2 h.2]
+
+theorem wellFormed_floatfree :
+    (∀ v, wellFormed v = true → hasFloat v = false) ∧
+    (∀ (_ : Bool) es, wellFormedEntries es = true → hasFloatEntries es = false) ∧
+    (∀ (_ : Bool) xs, wellFormedList xs = true → hasFloatList xs = false) := by
+  apply write.mutual_induct
+    (motive_1 := fun v => wellFormed v = true → hasFloat v = false)
+    (motive_2 := fun _ es => wellFormedEntries es = true → hasFloatEntries es = false)
+    (motive_3 := fun _ xs => wellFormedList xs = true → hasFloatList xs = false)
+  · intro _; rfl
+  · intro _; rfl
+  · intro _; rfl
+  · intro i _; rfl
+  · intro src h; simp [wellFormed] at h
+  · intro cps _; rfl
+  · intro xs ih h; simp only [wellFormed] at h; simp [hasFloat, ih h]
+  · intro es ih h; simp only [wellFormed] at h; simp [hasFloat, ih h]
+  · intro _ _; rfl
+  · intro _ x xs ih1 ih2 h
+    simp only [wellFormedList, Bool.and_eq_true] at h
+    simp [hasFloatList, ih1 h.1, ih2 h.2]
+  · intro _ _; rfl
+  · intro _ k v es ih1 ih2 h
+    simp only [wellFormedEntries, Bool.and_eq_true] at h
+    simp [hasFloatEntries, ih1 h.1.2, ih2 h.2]
 
 
 end Xt.Json
